@@ -2,3 +2,5 @@ pub mod full;
 pub mod full_drive;
 pub mod mrp;
 pub mod mrp_drive;
+pub mod im;
+pub mod im_drive;
